@@ -60,8 +60,10 @@ class Shadow:
 class Hist:
     """one history under construction: op lines plus shadows per slot"""
 
-    def __init__(self, rng, dl, cap, exp, pool):
-        self.rng, self.ops, self.sh = rng, [f"new esize={dl} cap={cap} exp={exp}"], {0: Shadow(dl)}
+    def __init__(self, rng, dl, cap, exp, pool, default=False):
+        # default=True: cc_array_sized_new (capacity 8, factor 2, C library allocator)
+        first = f"new_default esize={dl}" if default else f"new esize={dl} cap={cap} exp={exp}"
+        self.rng, self.ops, self.sh = rng, [first], {0: Shadow(dl)}
         self.pool = pool
 
     def val(self, dl=None, present_from=None):
@@ -327,6 +329,12 @@ class ArraySizedGen:
                         out.append([f"new esize={dl} cap={cap} exp=1.5"] + list(seq) +
                                    [f"index_of {a}", f"contains {b}", "destroy"])
         out.append(["new_default esize=3", "add 70000", "add 5", "trim_capacity", "add 6", "get_last", "remove_last", "destroy"])
+        # the C library triple is inherited by derived arrays and used by growth, trim and destroy
+        out.append(["new_default esize=2"] + [f"add {i}" for i in range(10)] + ["mk_copy to=1", "mk_sub 2 5 to=2", "mk_filter p=even to=3",
+                    "add 1 o=2", "add 2 o=2", "trim_capacity o=1", "drop o=1", "remove_all", "trim_capacity", "add 3 fail=1", "destroy"])
+        # a zip iterator over one array on each allocator
+        out.append(["new_default esize=1", "new o=1 esize=2 cap=1 exp=2", "add 1", "add 2", "add 11 o=1", "zit_new o=0 o2=1",
+                    "zit_next", "zit_add 5 15", "zit_next", "zit_add 6 16 fail=1", "foreach_zip o=0 o2=1", "destroy"])
         out.append(["new esize=2 cap=0 exp=2", "add 1", "destroy"])
         out.append([f"new esize=2 cap={2**63} exp=2", "add 1", "destroy"])
         out.append(["new esize=4 cap=3", "capacity", "get_buffer", "struct_size", "add 1", "add 2", "add 3", "add 4", "capacity", "destroy"])
@@ -471,7 +479,8 @@ class ArraySizedGen:
         dl = rng.choice(ESIZES)
         cap = rng.choice([1, 1, 2, 3, 4, 5, 8, 16])
         ex = rng.choice(FACTORS)
-        h = Hist(rng, dl, cap, ex, make_pool(rng, dl))
+        p_default = {None: 0.04, "reject": 0.0}.get(focus, 0.1)
+        h = Hist(rng, dl, cap, ex, make_pool(rng, dl), default=(rng.random() < p_default))
         if focus == "reject" and rng.random() < 0.05:
             # a constructor call that must be rejected (or refused): the rest of the history has no object
             return [rng.choice(self._extreme_news()), "add 1", "size", "destroy"]
